@@ -395,7 +395,7 @@ def write_evidence(prop, tier, base_seed, level, out, meta, n_violations):
     # ad-hoc invocations (--cases N, UBERJOB_SRC=...) never overwrite the evidence of the registered command
     adhoc = os.environ.get("VERIF_ADHOC") == "1" or os.environ.get("UBERJOB_SRC", "/repo/src") != "/repo/src"
     path = os.path.join(EVIDENCE_DIR, f"{prop}.dev.json" if adhoc else f"{prop}.json")
-    tmp = path + ".tmp"
+    tmp = path + f".{os.getpid()}.tmp"     # (two checks of one property may run at the same time, e.g. tools/benign.py)
     with open(tmp, "w") as f:
         json.dump(doc, f, indent=1, default=_json_default)
     os.replace(tmp, path)
